@@ -41,6 +41,11 @@ type keyProvider struct {
 }
 
 func (p *keyProvider) provideKey(token *jwt.Token) (interface{}, error) {
+	// If the JWK declares the algorithm it is intended for ("alg", RFC 7517 section 4.4),
+	// only tokens using that algorithm may be verified with it.
+	if alg := p.key.Algorithm; alg != "" && alg != token.Method.Alg() {
+		return nil, fmt.Errorf("token alg[%s] not match key alg[%s]", token.Method.Alg(), alg)
+	}
 	return p.key.Key, nil
 }
 
